@@ -103,8 +103,21 @@ def _value_classes(ctx, m):
         eq = meths['__eq__']
         g = _guard_of(eq, name)
         if g is None:
-            ctx.error('C19.D1', '%s.__eq__: type guard `if not isinstance(other, %s): return ...` not recognised'
-                      % (name, name))
+            # inverted guard: `if isinstance(other, Cls): return <answer for foreign kinds>`
+            b0 = body_wo_doc(eq)
+            o_ = eq.args.args[1].arg if len(eq.args.args) == 2 else 'other'
+            if b0 and isinstance(b0[0], ast.If) and norm(b0[0].test) in ('isinstance(%s, %s)' % (o_, name), 'type(%s) is %s' % (o_, name)) \
+                    and b0[0].body and isinstance(b0[0].body[0], ast.Return) \
+                    and norm(b0[0].body[0].value) in ('NotImplemented', 'False', 'True'):
+                ctx.violation('C19.D1', '%s::%s.__eq__' % (FD, name), norm(b0[0]).split('\n')[0],
+                              'two equal %s values compare %s, and a %s compared with a value of another kind reaches the '
+                              'field comparison (AttributeError / wrong answer): the kind guard is inverted'
+                              % (name, norm(b0[0].body[0].value), name),
+                              '%s.__eq__ returns its foreign-kind answer for operands that ARE %s' % (name, name), file=FD,
+                              line=eq.lineno, engine='E9')
+            else:
+                ctx.error('C19.D1', '%s.__eq__: type guard `if not isinstance(other, %s): return ...` not recognised'
+                          % (name, name))
             continue
         o, guard_ret, rest = g
         if is_str:
@@ -118,6 +131,11 @@ def _value_classes(ctx, m):
                               file=FD, line=eq.lineno, engine='E9')
             elif guard_ret == 'False':
                 ctx.ob('C19.D1', '%s.__eq__ answers False for operands that are not %s' % (name, name), True, where)
+            elif guard_ret == 'True':
+                ctx.violation('C19.D1', '%s::%s.__eq__' % (FD, name), norm(body_wo_doc(eq)[0]),
+                              "%s('x') == 'anything' (and == 5, == None) is True: the guard for operands of another kind "
+                              "answers True" % name, '%s.__eq__ answers True for operands of another kind' % name,
+                              file=FD, line=eq.lineno, engine='E9')
             else:
                 ctx.error('C19.D1', '%s.__eq__ guard returns %s' % (name, guard_ret))
             # must override __ne__
@@ -567,6 +585,17 @@ def _approx_symmetry(ctx, fn, v1, v2, body):
                                                          'isinstance(%s, bool) or isinstance(%s, bool)' % (v2, v1))]
     if bool_branch and any('isinstance(%s, bool) and isinstance(%s, bool)' % (v1, v2) in norm(x) for x in bool_branch[0].body):
         ctx.ob('C19.D3', 'a boolean cell only equals a boolean cell', True, '%s:%d' % (FG, bool_branch[0].lineno))
+        bt = ' '.join(norm(x) for x in bool_branch[0].body)
+        if ('%s == %s' % (v1, v2) in bt or '%s == %s' % (v2, v1) in bt or '%s is %s' % (v1, v2) in bt) \
+                and '%s != %s' % (v1, v2) not in bt and '%s != %s' % (v2, v1) not in bt:
+            ctx.ob('C19.D3', 'two boolean cells are equal iff they hold the same truth value', True,
+                   '%s:%d' % (FG, bool_branch[0].lineno))
+        else:
+            ctx.violation('C19.D3', '%s::Grid._approx_check' % FG, bt[:160],
+                          'a grid with the cell True is unequal to its own faithful copy (and equal to one holding False): the '
+                          'boolean branch does not end in `%s == %s`' % (v1, v2),
+                          'the boolean branch of _approx_check does not compare the two truth values for equality', file=FG,
+                          line=bool_branch[0].lineno, engine='E6')
     else:
         ctx.violation('C19.D3', '%s::Grid._approx_check' % FG, 'no boolean branch',
                       'grid with the cell True == grid with the cell 1 (a marker-like boolean equals a number: another kind)',
@@ -605,6 +634,19 @@ def _float_branch(ctx, fn, v1, v2, tests):
         return
     ret = rets[0]
     val = ret.value
+    # early exits of the branch (the not-a-number guard) must answer False
+    for g_ in fb[:-1]:
+        if isinstance(g_, ast.If) and g_.body and isinstance(g_.body[0], ast.Return):
+            if norm(g_.body[0].value) == 'False':
+                ctx.ob('C19.D3', 'float branch: `%s` answers False' % norm(g_.test)[:60], True, '%s:%d' % (FG, g_.lineno))
+            else:
+                ctx.violation('C19.D3', con, norm(g_)[:160],
+                              'a grid with the cell 1.5 == a grid with the cell "text" is %s: the guard for a non-number operand '
+                              'returns %s instead of False' % (norm(g_.body[0].value), norm(g_.body[0].value)),
+                              'the not-a-number guard of the float branch does not answer False', file=FG, line=g_.lineno,
+                              engine='E6')
+        elif not (isinstance(g_, ast.Expr) and isinstance(g_.value, ast.Constant)):
+            ctx.error('C19.D3', '_approx_check float branch: statement `%s` not recognised' % norm(g_)[:60])
     disj = val.values if isinstance(val, ast.BoolOp) and isinstance(val.op, ast.Or) else [val]
     kinds = []
 
